@@ -367,4 +367,46 @@ theorem too_many_results_rejected (values : List Boxed) (outs : List Ty) (h : ou
   have h2 : values.length ≠ outs.length := by omega
   simp [returnE2E, h1, I2V_arity_nonvariadic values outs h2]
 
+/-! ## the batch forms: `Matches(arg.Pair{…, Return: r})` and `Returns(v₁, v₂, …)` -/
+
+/-- a bare value given as `Pair.Return` (the untyped nil included) is a single result, converted exactly as by
+    `Return(value)` -/
+theorem matches_bare_value_is_single_result (b : Boxed) (out : Ty) :
+    matchesE2E K (.one b) [out] = returnE2E K [b] [out] := by
+  simp [matchesE2E, returnE2E, PairRet.results]
+
+/-- a `[]interface{}` given as `Pair.Return` is the result list, converted exactly as by `Return(values...)` -/
+theorem matches_list_is_result_list (bs : List Boxed) (outs : List Ty) (h : outs.length ≤ bs.length) :
+    matchesE2E K (.list bs) outs = returnE2E K bs outs := by
+  have h' : ¬ bs.length < outs.length := by omega
+  simp [matchesE2E, returnE2E, PairRet.results, h']
+
+/-- `Matches(Pair{Args: a, Return: nil})`: the nil becomes the typed zero value of the declared result, exactly as
+    with `Return(nil)` — a nil error that compares equal to nil, a nil pointer, slice, map, channel, func -/
+theorem matches_nil_is_typed_zero (out : Ty) (h : Nilable out.kind) :
+    matchesE2E K (.one none) [out] = .got [zeroRV out] := by
+  rw [matches_bare_value_is_single_result, nil_result_at_caller out h]
+
+example : Nilable tError.kind ∧ Nilable (Ty.ptr tS1).kind := by decide
+
+/-- `Returns(nil, …)`: a bare nil element is one group holding the typed zero value … -/
+theorem returns_nil_group_is_typed_zero (out : Ty) (h : Nilable out.kind) (gs : List PairRet) :
+    seqConfigure K [out] (.one none :: gs) =
+      (match seqConfigure K [out] gs with
+       | .error e => .error e
+       | .ok r => .ok ([zeroRV out] :: r)) := by
+  simp only [seqConfigure, PairRet.results, I2V_single, (nil_is_typed_zero out h).1]
+  cases seqConfigure K [out] gs <;> rfl
+
+/-- … which every call that selects this group receives unaltered -/
+theorem seq_zero_group_delivered (out : Ty) (h : Nilable out.kind) (rest : List (List RV)) :
+    seqCall ([zeroRV out] :: rest) [out] 0 = .got [zeroRV out] := by
+  have hs : out.size ≠ 0 := nilable_size_pos out h
+  simp [seqCall, RV.wellFlagged, deliver_single, deliver1, hs, directlyAssignable_self, zeroRV]
+
+/-- the last group is sticky: every call from the (k-1)-th on gets the last group's results -/
+theorem seq_last_sticky (stored : List (List RV)) (outs : List Ty) (i : Nat) (h : stored.length - 1 ≤ i) :
+    seqCall stored outs i = seqCall stored outs (stored.length - 1) := by
+  simp [seqCall, Nat.min_eq_right h]
+
 end C09
